@@ -134,6 +134,9 @@ func (Controller) HandleExt(c echo.Context) error {
 func TopLevel(c echo.Context) error {
 	return nil
 }
+
+// a generic typed query helper living in another package
+func QueryParamInt[T ~int64](echo.Context, string) (T, error) { return 0, nil }
 `,
 	}
 }
@@ -183,6 +186,8 @@ func body(r Reg) string {
 			fmt.Fprintf(&b, "\t%s := theCt.QueryParamInt64(c, %q)\n", v, name)
 		case "generic":
 			fmt.Fprintf(&b, "\t%s, err%d := QueryParamInt[IdDossier](c, %q)\n\tif err%d != nil {\n\t\treturn err%d\n\t}\n", v, i, name, i, i)
+		case "pkggeneric": // the same helper, referenced through a package qualifier
+			fmt.Fprintf(&b, "\t%s, err%d := inner.QueryParamInt[IdDossier](c, %q)\n\tif err%d != nil {\n\t\treturn err%d\n\t}\n", v, i, name, i, i)
 		}
 	}
 	for i, n := range r.Form.Values {
